@@ -6,4 +6,4 @@ Definition gen_codegen_facts : facts :=
           (mkLF AsgName DsList RetBracket true) (mkLF AsgLitK DsSplat RetBare true)
           OrdDep true true true true IaFrozen UtZero.
 (* the argument binding of src/mxlpy/meta/source_tools.py::fn_to_sympy *)
-Definition gen_bind_fact : bind_kind := BkStrictNonEmpty.
+Definition gen_bind_fact : bind_kind := BkStrict.
